@@ -170,7 +170,11 @@ Definition dbg_step (c : cfg) (v : ienv) : ienv * status :=
           if negb (cast_to_bool top) then (upd v (set_err e SCRIPT_ERR_EVAL_FALSE) [], SErr)
           else if is_p2sh_script (e_script e) then
             match i_p2shstack v with
-            | [] => (v, SCrash CRASH_ASSERT)            (* assert(!stack.empty()) *)
+            | [] =>
+                (* the saved stack is empty (exec supplied the hashed item later): is_p2sh is cleared, the (empty) stack restored, script error *)
+                ({| i_e := set_err (set_stack e []) SCRIPT_ERR_INVALID_STACK_OPERATION; i_pc := []; i_hist := i_hist v; i_seq := i_seq v;
+                    i_done := i_done v; i_p2sh := false; i_p2shstack := i_p2shstack v; i_succ := i_succ v; i_tce := None;
+                    i_operational := i_operational v |}, SErr)
             | ser :: rest =>
                 let e1 := {| e_script := ser; e_cb := Some ser; e_stack := rest; e_alt := e_alt e; e_cond := e_cond e;
                              e_ops := 0; e_pos := e_pos e; e_ed := e_ed e; e_err := e_err e |} in
